@@ -20,6 +20,15 @@ CHECKS = {
             "Pairs of reads on different ports are compared with the second read alone (non-initial states).",
             "Trusted: the harness' span scanner over Debug output, equal? for the write/read oracle (itself checked by C11). Longer inputs are outside the bound.",
             "DESIGN.md §3 C12"),
+    "C11": ("model_checking",
+            "explicit-state BFS over collection operation sequences executed on the real engine against Python models (state = model value), plus exhaustive pairwise equal?/hash checks over a generated value universe with explicit sharing",
+            "(a) Every ordered pair of a universe of ~2000 (thorough ~4000) values, in which the same structural value exists as a tree, as a DAG and as the "
+            "identical object, is compared both ways on the real engine; equal? must coincide with structural equality of Python twins, and equal immutable "
+            "values must be interchangeable as hash keys and set members; sequences of comparisons on fresh temporaries must be history independent. "
+            "(b) Breadth-first search to depth 3 (4) over every operation of lists, immutable vectors, hash maps, hash sets and strings with boundary indices; "
+            "each transition runs on the implementation (uniquely owned operand and operand that stays referenced) and must equal the model, errors included.",
+            "Trusted: the Python twins/models and the encoder hook. Immutable-vs-mutable vector equality, NaN and mutable keys are left unspecified.",
+            "DESIGN.md §3 C11"),
 }
 
 NOT_YET = {}
